@@ -390,7 +390,7 @@ func (fc *fctx) block(list []ast.Stmt, k konts) string {
 				} else {
 					val = t.zero(nm, v.Type())
 				}
-				out += fc.flush() + "let " + fc.varName(v) + " := " + val + " in\n  "
+				out += fc.flush() + "let " + fc.varName(v) + " : " + t.coqType(nm, v.Type()) + " := " + val + " in\n  "
 			}
 		}
 		return out + restK()
@@ -932,6 +932,22 @@ func isUnsafeCast(e ast.Expr) bool {
 // for _, x := range <[]string> { body }: structural recursion on the list
 func (fc *fctx) rangeStmt(s *ast.RangeStmt, rest []ast.Stmt, k konts) string {
 	t := fc.t
+	if fc.kind(s.X) == kBytes && s.Value == nil && s.Key != nil && s.Tok == token.DEFINE {
+		// for i := range b  ==  for i := 0; i < len(b); i++
+		key := s.Key.(*ast.Ident)
+		intT := types.Typ[types.Int]
+		zero := &ast.BasicLit{Kind: token.INT, Value: "0"}
+		t.info.Types[zero] = types.TypeAndValue{Type: intT, Value: constantZero}
+		lenId := &ast.Ident{Name: "len"}
+		t.info.Uses[lenId] = types.Universe.Lookup("len")
+		lenCall := &ast.CallExpr{Fun: lenId, Args: []ast.Expr{s.X}}
+		t.info.Types[lenCall] = types.TypeAndValue{Type: intT}
+		cond := &ast.BinaryExpr{X: key, Op: token.LSS, Y: lenCall}
+		t.info.Types[cond] = types.TypeAndValue{Type: types.Typ[types.Bool]}
+		f := &ast.ForStmt{Init: &ast.AssignStmt{Lhs: []ast.Expr{key}, Tok: token.DEFINE, Rhs: []ast.Expr{zero}}, Cond: cond,
+			Post: &ast.IncDecStmt{X: key, Tok: token.INC}, Body: s.Body}
+		return fc.forStmt(f, rest, k)
+	}
 	if fc.kind(s.X) != kStrList {
 		t.fail(s, "range over %s", fc.typeOf(s.X))
 	}
